@@ -355,6 +355,116 @@ def r147(db, ctx, roots):
     ctx.floor('R14.7', n, 4, 'reader next() with an end-of-input exit')
 
 
+INT_PARSERS = {'u8': 'nom::character::complete::u8', 'u16': 'nom::character::complete::u16', 'u32': 'nom::character::complete::u32',
+               'u64': 'nom::character::complete::u64'}
+INT_MAX = {'u8': 2 ** 8, 'u16': 2 ** 16, 'u32': 2 ** 32, 'u64': 2 ** 64, 'usize': 2 ** 64, 'i32': 2 ** 31, 'i64': 2 ** 63}
+
+
+def _float_const(e):
+    """Value of a constant float expression (literal or integer literal cast to float), else None."""
+    e = norm(e)
+    if e[0] == 'k' and isinstance(e[1], (int, float)) and not isinstance(e[1], bool):
+        return float(e[1])
+    if e[0] == 'cast' and e[1][0] == 'k' and isinstance(e[1][1], (int, float)):
+        import struct
+        v = float(e[1][1])
+        if 'f32' in str(e[2]):
+            v = struct.unpack('f', struct.pack('f', v))[0]
+        return v
+    return None
+
+
+def r148(db, ctx):
+    ctx.rule('R14.8', 'numeric exactness: integer-count formats (JASPAR, JASPAR 2016) parse each cell with nom\'s integer parser into the u32 that is '
+                      'stored (no float detour); every float->integer cast in the I/O crate is dominated by integrality (round(x) == x), x >= 0 '
+                      'and x < 2^bits guards, so a value that is not an exactly representable count is refused, never saturated')
+    n = 0
+    for mod in ('jaspar', 'jaspar16'):
+        try:
+            f = db.fn(f'lightmotif_io::{mod}::parse::counts')
+        except KeyError:
+            ctx.fail('R14.8', f'lightmotif_io::{mod}::parse::counts', 'count row parser', 'reason=anchor-missing')
+            continue
+        lists = [(bi, t) for bi, t in f.calls() if (t.get('callee') or '').startswith('nom::multi::') and len(t.get('gargs') or []) > 1]
+        ok = False
+        why = None
+        for bi, t in lists:
+            ga = t['gargs']
+            oty = ga[1]
+            el = [a for a in t['args'] if isinstance(a, dict) and 'k' in a and isinstance(a['k'], dict) and a['k'].get('fn')]
+            fns = [a['k']['fn'] for a in el]
+            if oty in INT_PARSERS and INT_PARSERS[oty] in fns:
+                ok = True
+                ctx.ok('R14.8', f, f'{mod}: cells parsed by {INT_PARSERS[oty]} into Vec<{oty}>', [t.get('callee')])
+            else:
+                why = f'{t.get("callee")} yields {oty} through {fns or "a composed parser"}'
+        if ok:
+            n += 1
+        else:
+            # name a float parser / cast inside the module if that is what replaced it
+            floats = []
+            for g in db.fns.values():
+                if g.path.startswith(f'lightmotif_io::{mod}::parse::'):
+                    for bi, t in g.calls():
+                        c = t.get('callee') or ''
+                        if c.startswith('nom::number::'):
+                            floats.append(c)
+                        for a in t['args']:
+                            if isinstance(a, dict) and isinstance(a.get('k'), dict) and (a['k'].get('fn') or '').startswith('nom::number::'):
+                                floats.append(a['k']['fn'])
+            ctx.fail('R14.8', f, f'{mod} cell parser', (f'count cells go through the floating-point parser {sorted(set(floats))} (f32 has a 24-bit mantissa: counts above 2^24 are rounded) '
+                                                       if floats else 'reason=unrecognised-shape: ') + (why or 'no list combinator with an integer element parser found'))
+    ctx.floor('R14.8', n, 2, 'integer cell parsers of JASPAR formats')
+    # float -> int casts
+    nc = 0
+    for f in db.fns.values():
+        if f.crate != 'lightmotif_io' or f.promoted_of:
+            continue
+        R = None
+        for bi, blk in enumerate(f.blocks):
+            if blk['cleanup']:
+                continue
+            for st in blk['stmts']:
+                if not (st['k'] == 'assign' and st['rv']['k'] == 'cast' and st['rv'].get('ck') == 'FloatToInt'):
+                    continue
+                nc += 1
+                R = R or X.Rec(f)
+                v = norm(R.operand(st['rv']['a']))
+                x = v[2][0] if v[0] == 'call' and v[1].endswith('::round') and len(v[2]) == 1 else v
+                cx = X.canon(x)
+                rels = G.relations(f, R, bi)
+                ity = st['rv'].get('ty')
+                integral = any(r[0] == 'eq' and {X.canon(norm(r[1])), X.canon(norm(r[2]))} == {cx, X.canon(('call', 'std::f32::round', (x,)))} or
+                               (r[0] == 'eq' and sorted([X.canon(norm(r[1])), X.canon(norm(r[2]))])[0] == cx and 'round' in X.canon(norm(r[1])) + X.canon(norm(r[2]))) for r in rels)
+                nonneg = False
+                below = False
+                for r in rels:
+                    if r[0] not in ('ge', 'gt', 'lt', 'le'):
+                        continue
+                    a, b = norm(r[1]), norm(r[2])
+                    rel = r[0]
+                    if X.canon(b) == cx and X.canon(a) != cx:
+                        a, b = b, a
+                        rel = {'ge': 'le', 'gt': 'lt', 'lt': 'gt', 'le': 'ge'}[rel]
+                    if X.canon(a) != cx:
+                        continue
+                    c = _float_const(b)
+                    if c is None:
+                        continue
+                    if (rel == 'ge' and c >= 0.0) or (rel == 'gt' and c >= -1.0):
+                        nonneg = True
+                    top = INT_MAX.get(ity)
+                    if top and ((rel == 'lt' and c <= top) or (rel == 'le' and c < top)):
+                        below = True
+                missing = [w for w, okk in (('round(x) == x', integral), ('x >= 0', nonneg), (f'x < 2^{(INT_MAX.get(ity) or 1).bit_length() - 1}', below)) if not okk]
+                if missing:
+                    ctx.fail('R14.8', f, f'cast {st["rv"].get("from")} as {ity}', f'`{X.show(v, 60)} as {ity}` is not dominated by {missing}: '
+                             'a value that is not an exact count is silently truncated / saturated instead of being refused', span=st.get('span'))
+                else:
+                    ctx.ok('R14.8', f, f'`{X.show(v, 60)} as {ity}` only for exact, in-range counts', ['round(x) == x', 'x >= 0', 'x < 2^bits'])
+    ctx.note(f'R14.8: {nc} float->int cast(s) in lightmotif_io')
+
+
 def run(db, ctx):
     from lm import panics
     roots = C15.entry_points(db)
@@ -370,3 +480,4 @@ def run(db, ctx):
     r145b(db, ctx)
     r146(db, ctx)
     r147(db, ctx, roots)
+    r148(db, ctx)
